@@ -69,7 +69,11 @@ def failing_op(rng, dv):
             name += "x"
         return E.Op("rm", name, "", "missing-key")
     if k < 0.30:
-        return E.Op(rng.choice(["set", "rm"]), rng.choice(E.MALFORMED_PATHS), val, "malformed-path")
+        mp = rng.choice(E.MALFORMED_PATHS)
+        if rng.random() < 0.3 and mp and not mp.startswith("@"):
+            # the same malformed remainder behind a scope selector
+            mp = "@" * rng.choice([1, 1, 2]) + mp
+        return E.Op(rng.choice(["set", "rm"]), mp, val, "malformed-path")
     if k < 0.44 and leaves:
         p = rng.choice(leaves)
         return E.Op(rng.choice(["set", "rm"]), E.spell(p + ("deeper",)), val, "through-non-set")
